@@ -66,6 +66,8 @@ structure Runner where
   forwarder : Option Nat := none
   receiver : Option Nat := none
   fwdReg : Reg := 0
+  /-- MVP-7.1: `ExecutionUnitID`, the core the control unit would like to run the instruction (it holds the line) -/
+  euPref : Option Nat := none
   deriving Repr, DecidableEq, Inhabited
 
 def Runner.to60 (r : Runner) : Model.Mvp60.Runner := { instr := r.instr, pc := r.pc, seq := r.seq }
@@ -126,6 +128,12 @@ structure State where
   rename tables instead of the transaction map, `shouldUseRenaming` in the control unit, the write units' filter in the
   cycle of a flush), see `Model/Mvp63.lean` -/
   v63 : Bool := false
+  /-- configuration: `true` = `proc/mvp7-1` and later (the control unit gives loads / stores a preferred core from its copy of
+  the MSI states, the execute units pick by preference and call `Run` / `MemoryRead` with the runner's sequence id), see
+  `Model/Mvp71.lean` -/
+  v71 : Bool := false
+  /-- MVP-7.1: `controlUnit.msiStatesCopy` as `(core, line) ↦ 1 (shared) | 2 (modified)` -/
+  msiCopy : List ((Nat × Int) × Nat) := []
   /-- ghost: `some (candidate, p, q)` once `shouldUseForwarding` had to choose between two different runners `p`, `q`
   pushed in the previous cycle (possible with renaming only: MVP-6.3); the run ends in that tick -/
   mapOrder : Option (Runner × Runner × Runner) := none
@@ -267,11 +275,32 @@ structure CuSt where
   v63 : Bool := false
   /-- set when `shouldUseForwarding` was ambiguous: the candidate and the two producers -/
   mapOrder : Option (Runner × Runner × Runner) := none
+  v71 : Bool := false
+  msiCopy : List ((Nat × Int) × Nat) := []
+  /-- the forward slots (read only: `getExecutionUnitIDPreference` calls `MemoryRead` on the static instruction) -/
+  fwds : List (Nat × Gen.Forward) := []
+
+/-- MVP-7.1 `getLineReaders` / `getLineWriter`: the cores holding line `a` in the copy, in `StableMapIteration` order
+(sorted by core, then line) -/
+def lineHolders (copy : List ((Nat × Int) × Nat)) (a : Int) (onlyModified : Bool) : List Nat :=
+  let ids := (copy.filter fun e => e.1.2 == a && (e.2 == 2 || (!onlyModified && e.2 == 1))).map (·.1.1)
+  (List.range (ids.foldl max 0 + 1)).filter ids.contains
+
+/-- MVP-7.1 `getExecutionUnitIDPreference(runner)`: `executionUnitIDCache` is never filled, so `Find` always fails and
+the first reader is taken -/
+def euPreference (st : CuSt) (r : Runner) : Option Nat :=
+  let i := r.instr.setForward (fwdGet st.fwds (instrIdx r.pc))
+  let t := i.instructionType
+  let line (addrs : List Word) : Option Int := addrs.head?.map fun a => a.toInt - a.toInt.tmod 64
+  if t.IsMemoryRead then (line (i.memoryRead st.ctx r.seq)).bind fun a => (lineHolders st.msiCopy a false).head?
+  else if t.IsMemoryWrite then (line (i.memoryWrite st.ctx r.seq)).bind fun a => (lineHolders st.msiCopy a true).head?
+  else none
 
 /-- `pushRunner(ctx, cycle, runner)` followed by `pushedRunnersInCurrentCycle[runner] = true` -/
 def pushRunner (st : CuSt) (cycle : Int) (r : Runner) : Option CuSt :=
   if !st.outBus.canAdd then none
   else
+    let r := if st.v71 then { r with euPref := euPreference st r } else r
     let r := { r with uid := st.nextUid }
     some { st with outBus := st.outBus.add r cycle, ctx := addPendingRegisters st.ctx r.instr,
                    cur := st.cur ++ [r], nextUid := st.nextUid + 1 }
@@ -344,7 +373,8 @@ def controlCycle (s : State) : M State :=
   else do
     let st : CuSt := { ctx := s.ctx, inBus := s.controlBus, outBus := s.executeBus, pendings := s.cuPendings,
                        prev := s.cuPrev, pendCond := s.cuPendCond, nextChan := s.nextChan, nextUid := s.nextUid,
-                       forwarded := s.forwarded, v62 := s.v62, v63 := s.v63 }
+                       forwarded := s.forwarded, v62 := s.v62, v63 := s.v63, v71 := s.v71, msiCopy := s.msiCopy,
+                       fwds := s.fwds }
     let (st, stopped) ← cuPendingLoop s.cycles s.cuPendings.iterator st
     let st ← if stopped then pure st else cuBusLoop s.cycles (st.inBus.pendingRead.toNat + 1) st
     -- the forwarding choice was ambiguous: the run ends here (see `cycleM`); the state is kept, with the witness
@@ -388,7 +418,8 @@ def condCtx (v62 v63 : Bool) (ctx : Model.Context) (r : Runner) (e : Gen.Executi
 def euRun (app : App) (s : State) (i : Nat) (eu : ExecUnit) (r : Runner) (cyc : Int) : M (State × EuOut) :=
   let eu := { eu with co := .none }
   let s := { setEu s i eu with executed := s.executed + 1 }
-  match (instrOf s r).run s.ctx app.labels r.pc eu.memory 0#32 with
+  -- MVP-7.1: `Run(ctx, labels, pc, memory, u.runner.SequenceID)` (tagged register reads); before: sequence id 0
+  match (instrOf s r).run s.ctx app.labels r.pc eu.memory (if s.v71 then r.seq else 0#32) with
   | .error (.panic w) => throw (.panic w)
   | .error (.err _) => pure (s, .err)
   | .ok e =>
